@@ -266,7 +266,7 @@ async def _direct(S, srv, tap, sessions, sa_states, reqs):
                 if isinstance(req, service.RawRequest) and req.service_id != 0x19:
                     continue
                 srv.state.session = sess
-                srv.state.last_sa_response = None if sa is None else service.SecurityAccessResponse(sa[0], bytes(sa[1]))
+                srv.state.last_sa_response = None if sa is None else service.SecurityAccessResponse(sa[0], bytes.fromhex(sa[1]))
                 try:
                     await srv.respond_after_default(req)
                 except Exception:  # noqa: BLE001  (recorded by the tap)
@@ -402,7 +402,10 @@ def check_calls(ctx, cfg_lines, calls, updates, jobs):
             ctx.nontrivial(("h", rec["tag"], rec["raw"], rec["before"]))
         impl = f"reply={rec['reply']} session={rec['after'][0]} sa={rec['after'][1]} trace={trace_text(rec['segs'])}"
         job = jobs[rec["tag"]]
-        case = {"kind": "handler", "job": list(job) if job[0] == "direct" else ["history", {**job[1], "history": job[1]["history"]}],
+        # minimised: the handler call alone on a fresh server - (seed, handler parameters, session, pending answer, request)
+        jseed, jparams = (job[1], job[2]) if job[0] == "direct" else (job[1]["seed"], job[1]["params"])
+        sa_b = None if rec["before"][1] == "-" else [int(rec["before"][1].split(":")[0]), rec["before"][1].split(":")[1].replace("-", "")]
+        case = {"kind": "handler", "job": ["direct", jseed, jparams, [rec["before"][0]], [sa_b], [rec["raw"]]],
                 "request": rec["raw"], "state_before": list(rec["before"])}
         if rec["global_random_touched"]:
             ctx.disagree(f"h:global-random:{hname}", f"handler {hname} advanced the process-global random module while answering "
@@ -463,7 +466,7 @@ def check_handlers(ctx, S, base_rng, cfgs):
     check_repr(ctx)
     rng = ctx.rng
     jobs = [("history", c) for c in cfgs if "seed" in c and "history" in c]
-    sa_states = [None, (1, b"\x01\x02"), (3, b""), (0x11, b"'\"\\")]
+    sa_states = [None, (1, "0102"), (3, ""), (0x11, "27225c")]  # (security_access_type, seed hex) of a pending answer
     dense = {"p_identifier": 1.0, "p_correct_payload_format": 1.0, "p_dtc_status_mask": 1.0}
     for k in range(ctx.pick(6, 30)):
         params = dict(dense) if k % 3 == 0 else {"p_identifier": rng.choice([0.3, 0.7, 1.0]),
@@ -511,8 +514,6 @@ def replay(ctx, S, base_rng, c):
             check_ast(ctx, S)
         else:
             job = ("history", job[1]) if job[0] == "history" else tuple(job)
-            if job[0] == "direct":
-                job = (job[0], job[1], job[2], job[3], [None if x is None else (x[0], bytes(x[1])) for x in job[4]], job[5])
             cfg_lines, calls, updates = collect(S, base_rng, [job])
             check_calls(ctx, cfg_lines, calls, updates, [job])
     new = ctx.disagreements[n0:]
